@@ -25,8 +25,9 @@
 (*                                                                          *)
 (* Not part of the normal form (the statement does not speak of them):      *)
 (* titles, descriptions other than a response's, examples, tags, summary,   *)
-(* externalDocs, xml, extensions, collectionFormat,                         *)
-(* response media types.  An operation without `consumes` accepts any media *)
+(* externalDocs, xml, extensions, response media types; the serialisation   *)
+(* of arrays (collectionFormat / style, explode) only as far as SerDiffs     *)
+(* goes.  An operation without `consumes` accepts any media *)
 (* type ("*/*").                                                            *)
 (***************************************************************************)
 EXTENDS DocJson
@@ -116,6 +117,65 @@ Deref(prefix, table, x) ==
 PKey(p) == StrOf(Opt(p, "in"), "?") \o ":" \o StrOf(Opt(p, "name"), "?")
 MtsOf(v) == IF v.t = "arr" /\ v.a # <<>> THEN SetObj(StrSet(v)) ELSE SetObj({"*/*"})
 
+(* ------------------------------------------------------ array serialisation *)
+(* How an array value is written on the wire: OpenAPI 2 collectionFormat (csv when absent), OpenAPI 3 style / explode *)
+(* (form + explode for query parameters and form fields, simple for header and path parameters and response headers    *)
+(* when absent).  The statement lists a parameter's name, location, requiredness and constraints - not its             *)
+(* serialisation - and the converter is silent about it in both directions, so silence is accepted (the defaults of    *)
+(* the target version then apply).  What "describes the same API" does exclude: a converted document that STATES a     *)
+(* serialisation other than the original's.  Per operation the normal form carries                                     *)
+(*    ser     : {"<in>:<name>" | "resp:<code>:<header>": format}   of every array parameter / form field / header      *)
+(*    serSaid : the same, only where the document says it (collectionFormat; style or explode)                         *)
+(* in OpenAPI 2 terms (csv, ssv, tsv, pipes, multi; "style:<s>" for an OpenAPI 3 style OpenAPI 2 cannot express).       *)
+(* ser / serSaid are left out of the equality of the two normal forms (ApiDiff) and compared by SerDiffs: wherever     *)
+(* the converted document says a format, it is the format of the original.  Inner arrays are not looked at.            *)
+IsArr2(p) == Opt(p, "type") = S("array")
+Ser2Of(p) == StrOf(Opt(p, "collectionFormat"), "csv")
+Says3(x) == Has(x, "style") \/ Has(x, "explode")
+Ser3Of(x, dflt) ==
+   LET st == StrOf(Opt(x, "style"), dflt)
+       ex == IF Has(x, "explode") THEN x.m["explode"] = B(TRUE) ELSE st = "form"
+   IN CASE st \in {"form", "spaceDelimited", "pipeDelimited"} /\ ex -> "multi"
+        [] st \in {"form", "simple"} -> "csv"
+        [] st = "spaceDelimited" -> "ssv"
+        [] st = "pipeDelimited" -> "pipes"
+        [] OTHER -> "style:" \o st
+HKey(c, h) == "resp:" \o c \o ":" \o h
+
+(* response headers of a v2 operation that are arrays (said: only those that state a collectionFormat) *)
+HdrSer2(d, op, said) ==
+   LET rs == Sub(op, "responses")
+       R(c) == Deref("#/responses/", Sub(d, "responses"), rs.m[c])
+       H(k) == R(k[1]).m["headers"].m[k[2]]
+       ks == {k \in UNION {{<<c, h>> : h \in Keys(Sub(R(c), "headers"))} : c \in Keys(rs)} :
+                 IsArr2(H(k)) /\ (said => Has(H(k), "collectionFormat"))}
+   IN [key \in {HKey(k[1], k[2]) : k \in ks} |-> S(Ser2Of(H(CHOOSE k \in ks : HKey(k[1], k[2]) = key)))]
+PrmSer2(ps, said) ==
+   LET as == {p \in ps : IsArr2(p) /\ (said => Has(p, "collectionFormat"))} IN
+   [key \in {PKey(p) : p \in as} |-> S(Ser2Of(CHOOSE p \in as : PKey(p) = key))]
+
+(* response headers of a v3 operation that state style / explode *)
+HdrSer3(d, op) ==
+   LET comps == Sub(d, "components")
+       rs == Sub(op, "responses")
+       R(c) == Deref("#/components/responses/", Sub(comps, "responses"), rs.m[c])
+       H(k) == Deref("#/components/headers/", Sub(comps, "headers"), R(k[1]).m["headers"].m[k[2]])
+       ks == {k \in UNION {{<<c, h>> : h \in Keys(Sub(R(c), "headers"))} : c \in Keys(rs)} : Says3(H(k))}
+   IN [key \in {HKey(k[1], k[2]) : k \in ks} |-> S(Ser3Of(H(CHOOSE k \in ks : HKey(k[1], k[2]) = key), "simple"))]
+PrmSer3(ps) ==
+   LET as == {p \in ps : Says3(p)} IN
+   [key \in {PKey(p) : p \in as} |->
+      LET p == CHOOSE x \in as : PKey(x) = key IN S(Ser3Of(p, IF Opt(p, "in") \in {S("query"), S("cookie")} THEN "form" ELSE "simple"))]
+(* form fields: the encoding objects of the form media types of a request body *)
+FormSer3(content) ==
+   LET encs == {e \in UNION {{<<mt, n>> : n \in Keys(Sub(content.m[mt], "encoding"))} : mt \in Keys(content) \cap FormMTs} :
+                   Says3(content.m[e[1]].m["encoding"].m[e[2]])}
+       names == {e[2] : e \in encs}
+       said(n) == {Ser3Of(content.m[e[1]].m["encoding"].m[n], "form") : e \in {x \in encs : x[2] = n}}
+   IN [key \in {"formData:" \o n : n \in names} |->
+         LET n == CHOOSE x \in names : "formData:" \o x = key IN
+         IF Cardinality(said(n)) = 1 THEN S(CHOOSE x \in said(n) : TRUE) ELSE S("differing")]
+
 (* --------------------------------------------------------------- OpenAPI 2 *)
 Resp2(d, names, r0) ==
    LET r == Deref("#/responses/", Sub(d, "responses"), r0) IN
@@ -155,7 +215,9 @@ Op2(d, item, op) ==
         @@ KV("params", params)
         @@ KV("body", body)
         @@ KV("responses", O([c \in Keys(Sub(op, "responses")) |-> Resp2(d, names, op.m["responses"].m[c])]))
-        @@ KV("security", Opt(op, "security")))
+        @@ KV("security", Opt(op, "security"))
+        @@ KV("ser", O(PrmSer2(nb \cup forms, FALSE) @@ HdrSer2(d, op, FALSE)))
+        @@ KV("serSaid", O(PrmSer2(nb \cup forms, TRUE) @@ HdrSer2(d, op, TRUE))))
 
 OpKeys(paths, methods) == {<<p, m>> : p \in Keys(paths), m \in methods}
 
@@ -242,7 +304,11 @@ Op3(d, item, op) ==
         @@ KV("params", params)
         @@ KV("body", body)
         @@ KV("responses", O([c \in Keys(Sub(op, "responses")) |-> Resp3(d, names, op.m["responses"].m[c])]))
-        @@ KV("security", Opt(op, "security")))
+        @@ KV("security", Opt(op, "security"))
+        @@ KV("serSaid", O(PrmSer3(nb) @@ HdrSer3(d, op)
+                           @@ (IF Has(op, "requestBody")
+                               THEN FormSer3(Sub(Deref("#/components/requestBodies/", Sub(comps, "requestBodies"), op.m["requestBody"]), "content"))
+                               ELSE <<>>))))
 
 Flow3To2(f) == CASE f = "implicit" -> "implicit" [] f = "authorizationCode" -> "accessCode"
                  [] f = "password" -> "password" [] f = "clientCredentials" -> "application" [] OTHER -> "?" \o f
@@ -309,5 +375,18 @@ CompNames2(d2) == UNION {Keys(Sub(d2, c)) : c \in {"definitions", "parameters", 
 (* with the same constraints (a converter may add components of its own)              *)
 OnlyDefsOf(api, ref) ==
    O([k \in DOMAIN api.m |-> IF k = "defs" THEN Restrict(api.m["defs"], Keys(ref.m["defs"])) ELSE api.m[k]])
-ApiDiff(expApi, gotApi) == Diff(expApi, OnlyDefsOf(gotApi, expApi), <<>>)
+(* the serialisation fields are compared on their own (SerDiffs) *)
+NoSer(api) ==
+   O([k \in DOMAIN api.m |->
+        IF k = "ops" /\ api.m[k].t = "obj"
+        THEN O([o \in DOMAIN api.m[k].m |-> LET op == api.m[k].m[o] IN
+                  IF op.t = "obj" THEN O([f \in DOMAIN op.m \ {"ser", "serSaid"} |-> op.m[f]]) ELSE op])
+        ELSE api.m[k]])
+ApiDiff(expApi, gotApi) == Diff(NoSer(expApi), OnlyDefsOf(NoSer(gotApi), expApi), <<>>)
+(* wherever the converted document states a serialisation of an array the original has, it states the original's *)
+SerDiffs(expApi, gotApi) ==
+   LET eo == Sub(expApi, "ops")  go == Sub(gotApi, "ops") IN
+   UNION {LET e == Sub(eo.m[o], "ser")  g == Sub(go.m[o], "serSaid") IN
+          {[path |-> <<"ops", o, "ser", k>>, exp |-> e.m[k], got |-> g.m[k]] : k \in {x \in Keys(e) \cap Keys(g) : e.m[x] # g.m[x]}}
+          : o \in Keys(eo) \cap Keys(go)}
 =============================================================================
